@@ -47,3 +47,58 @@ Proof. intro H. destruct (Nat.eq_dec a b) as [->|Hn]; [right; reflexivity|left].
 
 Theorem substring_length (s : bytes) (a n : nat) : (a + n <= length s)%nat -> length (sub_bytes s a n) = n.
 Proof. intro H. unfold sub_bytes. rewrite firstn_length, skipn_length. lia. Qed.
+
+(* copy(dst, src): dst[i] == src[i] for every i < len(src), the rest of a longer destination is kept, the length is the larger one *)
+Theorem copy_length ls ld : length (copy_store ls ld) = Nat.max (length ls) (length ld).
+Proof. unfold copy_store. rewrite app_length, skipn_length. lia. Qed.
+
+Theorem copy_prefix ls ld i : (i < length ls)%nat -> nth_error (copy_store ls ld) i = nth_error ls i.
+Proof. intro H. unfold copy_store. apply nth_error_app1. exact H. Qed.
+
+Lemma nth_error_skipn {A} (l : list A) k i : nth_error (skipn k l) i = nth_error l (k + i).
+Proof. revert l; induction k as [|k IH]; intros [|y l]; simpl; auto. destruct i; reflexivity. Qed.
+
+Theorem copy_tail ls ld i : (length ls <= i)%nat -> nth_error (copy_store ls ld) i = nth_error ld i.
+Proof.
+  intro H. unfold copy_store. rewrite nth_error_app2 by exact H. rewrite nth_error_skipn. f_equal. lia.
+Qed.
+
+(* reference semantics: a slice value is an index into the heap.  Two variables holding the same VSlice id read the same list,
+   a store through one id is what every later read of that id returns, no other id is affected, and a new slice gets an id that
+   no existing value can hold. *)
+Theorem set_then_get id l s : (id < length (s_heap s))%nat ->
+  exists s', set_slice id l s = Done tt s' /\ get_slice id s' = Done l s' /\ length (s_heap s') = length (s_heap s).
+Proof.
+  intro H. eexists. split; [reflexivity|]. unfold get_slice; simpl. rewrite replace_nth_same by exact H.
+  split; [reflexivity|apply replace_nth_length].
+Qed.
+
+Theorem set_keeps_others id id' l s s' : set_slice id l s = Done tt s' -> id <> id' ->
+  nth_error (s_heap s') id' = nth_error (s_heap s) id'.
+Proof. intros E Hn. inversion E; subst; simpl. apply replace_nth_other. exact Hn. Qed.
+
+Theorem set_changes_heap_only id l s s' : set_slice id l s = Done tt s' ->
+  s_globals s' = s_globals s /\ s_frame s' = s_frame s /\ s_out s' = s_out s /\ s_files s' = s_files s /\ s_stdin s' = s_stdin s.
+Proof. intro E. inversion E; subst; simpl. repeat split. Qed.
+
+Theorem new_slice_fresh l s v s' : new_slice l s = Done v s' ->
+  exists id, v = VSlice id /\ nth_error (s_heap s) id = None /\ nth_error (s_heap s') id = Some l
+    /\ forall id', (id' < length (s_heap s))%nat -> nth_error (s_heap s') id' = nth_error (s_heap s) id'.
+Proof.
+  intro E. inversion E; subst; simpl. exists (length (s_heap s)). split; [reflexivity|]. split.
+  - apply nth_error_None. lia.
+  - split.
+    + rewrite nth_error_app2 by lia. rewrite Nat.sub_diag. reflexivity.
+    + intros id' H. apply nth_error_app1. exact H.
+Qed.
+
+(* an element store through an id, read back through the same id *)
+Theorem store_through_alias id n v z s l : get_slice id s = Done l s ->
+  exists s', set_slice id (slice_store l n v z) s = Done tt s'
+    /\ (exists l', get_slice id s' = Done l' s' /\ nth_error l' n = Some v /\ length l' = Nat.max (length l) (S n)).
+Proof.
+  intro G. unfold get_slice in G. destruct (nth_error (s_heap s) id) as [l0|] eqn:E; [|discriminate].
+  inversion G; subst l0. assert (H : (id < length (s_heap s))%nat) by (apply nth_error_Some; congruence).
+  destruct (set_then_get id (slice_store l n v z) s H) as [s' [E1 [E2 _]]].
+  exists s'. split; [exact E1|]. eexists. split; [exact E2|]. split; [apply store_written|apply store_length].
+Qed.
